@@ -12,17 +12,65 @@ import json
 import os
 import re
 
+import lib
 from lib import REPO, gN, gbool, glist
 
 HEADER = ("From CJ Require Import Common.Base C08.Model C08.Run.\n"
           "Definition K (s : N) (t : tr) (p : N) : regkey := Build_regkey s t p.\n"
           "Definition O := Build_obs.\n")
 TRS = ["Min", "Obfs4", "Prefix", "Dtls", "Other"]
-TEN_MIN, SIX_H = 600, 21600
 NS = 1000000000
+TEN_MIN, SIX_H = 600 * NS, 21600 * NS      # nanoseconds, like the model
 
 GO_PKG = "pkg/station/lib"
-GO_FILES = {"zz_verif_driver_test.go": "c08/registry_driver_test.go"}
+GO_FILES = {"zz_verif_driver_test.go": "c08/registry_driver_test.go",
+            "zz_verif_clock_fake_test.go": "c08/clock_fake_test.go",
+            "zz_verif_clock_real_test.go": "c08/clock_real_test.go"}
+
+
+def adv_ns(o):
+    return o["d"] * NS + o.get("ns", 0)
+
+
+def go_run(ctx, moddir, pkg, files, run, cases, mode, real_timeout, extra_files=None):
+    """like lib.Ctx.go_inpkg, plus what the fake clock needs: -tags faketime, -ldflags=-checklinkname=0 (the driver
+    moves runtime.faketime itself), no test alarm (it would run on the fake clock), a real-time limit on the process"""
+    tagid = "%s_%s_%s_%d" % (ctx.pid, re.sub(r"\W", "_", run), mode, os.getpid())
+    pkgdir = os.path.normpath(os.path.join(REPO, moddir, pkg))
+    repl = {os.path.join(pkgdir, name): os.path.join(lib.INPKG, src) for name, src in files.items()}
+    for name, path in (extra_files or {}).items():
+        repl[os.path.join(pkgdir, name)] = path
+    ov = os.path.join(lib.BUILD, "ov_%s.json" % tagid)
+    cpath = os.path.join(lib.BUILD, "cases_%s.json" % tagid)
+    opath = os.path.join(lib.BUILD, "out_%s.json" % tagid)
+    with open(ov, "w") as f:
+        json.dump({"Replace": repl}, f)
+    with open(cpath, "w") as f:
+        json.dump(cases, f)
+    if os.path.exists(opath):
+        os.remove(opath)
+    e = dict(lib.GOENV)
+    e.pop("GOFLAGS")
+    e.update({"VERIF_CASES": cpath, "VERIF_OUT": opath, "VERIF_TIER": ctx.tier, "VERIF_SEED": str(ctx.seed), "VERIF_C08_MODE": mode})
+    cmd = ["go", "test", "-count=1", "-vet=off", "-overlay", ov, "-run", run]
+    if mode == "fake":
+        e["GOMAXPROCS"] = "1"
+        cmd += ["-tags", "faketime", "-ldflags=-checklinkname=0", "-timeout", "0"]
+    else:
+        cmd += ["-timeout", "%ds" % real_timeout]
+    cmd += [pkg if pkg.startswith("./") else "./" + pkg]
+    rc, out = lib.sh(cmd, cwd=os.path.join(REPO, moddir), env=e, timeout=real_timeout + 60)
+    res = None
+    if os.path.exists(opath):
+        try:
+            with open(opath) as f:
+                res = json.load(f)
+        except Exception as ex:
+            out += "\n[unreadable driver output: %s]" % ex
+    for q in (ov, cpath, opath):
+        if os.path.exists(q) and os.environ.get("VERIF_KEEP") != "1":
+            os.remove(q)
+    return rc, "".join(ch for ch in out if ch.isprintable() or ch in "\n\t"), res
 
 
 # ----------------------------------------------------------------------------- direct oracle
@@ -30,7 +78,7 @@ class Spec:
     """The property statement, per registration, as a function of the history (no table)."""
 
     def __init__(self):
-        self.life = {}      # key -> [age_s, used, validated]
+        self.life = {}      # key -> [age_ns, used, validated]
 
     def apply(self, o):
         op = o["op"]
@@ -49,7 +97,7 @@ class Spec:
                 self.life[k][1] = True
         elif op == "advance":
             for v in self.life.values():
-                v[0] += o["d"]
+                v[0] += adv_ns(o)
         elif op == "sweep":
             for k in list(self.life):
                 a, u, _ = self.life[k]
@@ -67,6 +115,8 @@ def relation_class(k, hist_keys):
     """how the key relates to the other registrations named in the history (for narrow finding keys)"""
     rel = set()
     for q in hist_keys:
+        if q != k and q[0] == k[0] and q[1] == k[1]:
+            rel.add("same-secret-other-phantom")
         if q == k or q[2] != k[2]:
             continue
         if q[0] == k[0] and q[1] != k[1]:
@@ -87,6 +137,11 @@ def oracle(ctx, case, res):
     alphabet = {tuple(k) for k in case["keys"]}
     clean = True
     for i, (o, ob) in enumerate(zip(case["ops"], res["obs"])):
+        if o["op"] == "sweep":
+            for a, u, _ in spec.life.values():
+                if a == (SIX_H if u else TEN_MIN):
+                    kd = "boundary/sweep-at-limit-%s" % ("used" if u else "unused")
+                    ctx.cov["histogram"][kd] = ctx.cov["histogram"].get(kd, 0) + 1
         spec.apply(o)
         if ob["panic"]:
             ctx.fail("panic:%s" % o["op"], "operation %s panicked on the real table: %s" % (o["op"], ob["panic"][:200]),
@@ -170,8 +225,9 @@ def A(s, t, p):
     return {"op": "active", "s": s, "t": t, "p": p}
 
 
-def ADV(d):
-    return {"op": "advance", "d": d}
+def ADV(d, ns=0):
+    """advance by d seconds (+ ns nanoseconds: only the fake clock can do that)"""
+    return {"op": "advance", "d": d, "ns": ns} if ns else {"op": "advance", "d": d}
 
 
 SW = {"op": "sweep"}
@@ -215,11 +271,13 @@ def corpus_cases():
     cs.append(mk_case([V(100, 0, 0), V(101, 0, 0), A(101, 0, 0), ADV(660), SW, L(0), ADV(21000), SW, L(0)]))
     # both address families / several phantoms
     cs.append(mk_case([V(0, 0, 0), V(0, 0, 1), ADV(300), A(0, 0, 1), ADV(301), SW, L(0), L(1), ADV(20999), SW, L(1), ADV(1), SW, L(1)]))
-    # boundaries
-    for u, lim in ((False, TEN_MIN), (True, SIX_H)):
-        for d in (lim - 1, lim, lim + 1):
-            ops = [V(1, 1, 1)] + ([A(1, 1, 1)] if u else []) + [ADV(d), SW, L(1), C(1)]
+    # boundaries: one second and (fake clock) one nanosecond around the limit, and the limit itself
+    for u, lim in ((False, 600), (True, 21600)):
+        for d, ns in ((lim - 1, 0), (lim, 0), (lim + 1, 0), (lim - 1, NS - 1), (lim, 1)):
+            ops = [V(1, 1, 1)] + ([A(1, 1, 1)] if u else []) + [ADV(d, ns), SW, L(1), C(1)]
             cs.append(mk_case(ops))
+        # the limit reached in two steps, with a sweep at the exact instant and one a nanosecond later
+        cs.append(mk_case([T(1, 0, 0)] + ([A(1, 0, 0)] if u else []) + [ADV(lim // 2, 5), ADV(lim - lim // 2 - 1, NS - 5), SW, C(0), ADV(0, 1), SW, C(0)]))
     # duplicates do not refresh; re-registration after expiry starts a new life
     cs.append(mk_case([T(2, 0, 0), ADV(400), T(2, 0, 0), TNX(2, 0, 0), V(2, 0, 0), ADV(201), SW, C(0), T(2, 0, 0), L(0), ADV(600), SW, C(0)]))
     # expired but not yet swept: still there until the sweep
@@ -254,7 +312,7 @@ def exhaustive_cases(depth, small):
 ADV_CHOICES = [0, 1, 59, 299, 300, 301, 599, 600, 601, 660, 900, 3600, 7200, 20999, 21000, 21599, 21600, 21601, 43200]
 
 
-def random_case(rng, nops, big):
+def random_case(rng, nops, big, exact=False):
     secrets = rng.sample([0, 1, 2, 3, 100, 101, 102, 103], rng.choice([1, 2, 3]) if not big else rng.choice([3, 5, 8]))
     trs = rng.sample([0, 1, 2, 3, 4], rng.choice([2, 3]) if not big else 5)
     phs = rng.sample([0, 1, 2, 3], rng.choice([1, 2]) if not big else rng.choice([2, 4]))
@@ -275,13 +333,14 @@ def random_case(rng, nops, big):
         elif x < 0.77:
             live = sorted(spec.tracked())
             d = rng.choice(ADV_CHOICES)
+            ns = 0
             if live and rng.random() < 0.6:        # bring one live registration to (just around) its limit
                 k = rng.choice(live)
                 a, u, _ = spec.life[k]
-                tgt = (SIX_H if u else TEN_MIN) + rng.choice([-1, 0, 0, 1, 1, 60])
+                tgt = (SIX_H if u else TEN_MIN) + rng.choice([-NS, 0, 0, NS, NS, 60 * NS] if not exact else [-1, 0, 0, 1, -NS, NS])
                 if tgt > a:
-                    d = tgt - a
-            o = ADV(d)
+                    d, ns = divmod(tgt - a, NS)
+            o = ADV(d, ns)
         elif x < 0.94:
             o = SW
         elif x < 0.98:
@@ -338,9 +397,15 @@ def gen_cases(ctx):
     rng = ctx.rng
     for _ in range(150 if quick else 1500):
         cases.append(random_case(rng, rng.choice([5, 10, 20, 40]), big=False))
+    for _ in range(60 if quick else 600):      # nanosecond steps around the limits (fake clock only)
+        cases.append(random_case(rng, rng.choice([5, 10, 20, 40]), big=False, exact=True))
     for _ in range(25 if quick else 300):
         cases.append(random_case(rng, rng.choice([80, 120, 200]), big=True))
     return cases, n_fixed, n_exh
+
+
+def is_exact(case):
+    return any(o.get("ns") for o in case["ops"])
 
 
 # ----------------------------------------------------------------------------- Gallina emission
@@ -361,7 +426,7 @@ def gop(o):
     if op == "active":
         return "MarkActive " + gkey((o["s"], o["t"], o["p"]))
     if op == "advance":
-        return "Advance %s" % gN(o["d"] * NS)
+        return "Advance %s" % gN(adv_ns(o))
     if op == "sweep":
         return "Sweep"
     if op == "lookup":
@@ -412,8 +477,9 @@ def run(ctx):
         "re-checked on every generated alphabet by the driver",
         "the phantom address string never contains the separator used by timeoutKey",
         "the operations on RegisteredDecoys are executed one at a time (the mutex makes them atomic; interleavings are C09's subject)",
-        "ages are imposed by shifting DecoyTimeout.registrationTime in whole seconds with 0.5 s slack; the sub-second behaviour of "
-        "the comparison (the code expires on age > limit, i.e. the boundary instant itself is kept) is not observable",
+        "time is an input: the driver moves the Go runtime's fake clock (build tag faketime, runtime.faketime set through "
+        "go:linkname), so ages are exact to the nanosecond, including age == limit; a subset is re-run with the real clock and "
+        "shifted registrationTime (whole seconds, 0.5 s slack) and must give the same observations",
     ]
     ctx.cov["trusted_base"] = [
         "Coq 8.16.1 kernel (coqc; coqchk in the thorough tier); vm_compute only for evaluating the model on recorded cases",
@@ -434,10 +500,38 @@ def run(ctx):
         ctx.broken("examples", "non-vacuity examples / legacy witness no longer check: " + out[-600:])
     wiring(ctx)
     cases, n_fixed, n_exh = gen_cases(ctx)
-    rc, out, res = ctx.go_inpkg(".", GO_PKG, GO_FILES, "^TestVerifC08Registry$", cases, tags=None, timeout=900)
-    if res is None or len(res) != len(cases):
-        ctx.broken("driver", "Go driver did not produce results (rc=%s): %s" % (rc, out[-1200:]))
-        return
+    # primary run: the runtime's fake clock, moved by the driver - every age is exact to the nanosecond
+    rc, out, res = go_run(ctx, ".", GO_PKG, GO_FILES, "^TestVerifC08Registry$", cases, "fake", 900)
+    fake_ok = res is not None and len(res) == len(cases)
+    if fake_ok:
+        ctx.cov["clock"] = "faketime (runtime clock moved by the driver; ages exact)"
+        # cross-check with the real clock and shifted timestamps (whole seconds, 0.5 s slack): same observations
+        sel = [i for i, c in enumerate(cases) if not is_exact(c) and (i < n_fixed or ctx.tier != "quick" or i % 4 == 0)]
+        rc2, out2, res2 = go_run(ctx, ".", GO_PKG, GO_FILES, "^TestVerifC08Registry$", [cases[i] for i in sel], "shift", 900)
+        if res2 is None or len(res2) != len(sel):
+            ctx.broken("driver", "Go driver (real clock, shifted timestamps) did not produce results (rc=%s): %s" % (rc2, out2[-1200:]))
+        else:
+            ndiff = 0
+            for i, r2 in zip(sel, res2):
+                ctx.cov["histogram"]["clock/shift-crosscheck"] = ctx.cov["histogram"].get("clock/shift-crosscheck", 0) + 1
+                if r2["slow"]:
+                    continue
+                if r2["obs"] != res[i]["obs"]:
+                    ndiff += 1
+                    if oracle(ctx, cases[i], r2) and ndiff == 1:
+                        ctx.broken("clock-modes-disagree", "the same history gives different observations with the fake clock and with "
+                                   "shifted timestamps", {"case": cases[i]})
+    else:
+        # toolchain without a usable fake clock: everything through shifted timestamps, nanosecond cases dropped
+        ctx.cov["clock"] = "faketime unavailable (%s); real clock with shifted timestamps, boundary instant NOT checked" % out[-300:]
+        keep = [i for i, c in enumerate(cases) if not is_exact(c)]
+        n_fixed = sum(1 for i in keep if i < n_fixed)
+        n_exh = sum(1 for i in keep if i < n_exh)
+        cases = [cases[i] for i in keep]
+        rc, out, res = go_run(ctx, ".", GO_PKG, GO_FILES, "^TestVerifC08Registry$", cases, "shift", 900)
+        if res is None or len(res) != len(cases):
+            ctx.broken("driver", "Go driver did not produce results (rc=%s): %s" % (rc, out[-1200:]))
+            return
     terms, kept_cases = [], []
     for idx, (case, r) in enumerate(zip(cases, res)):
         nsweep = sum(1 for o in case["ops"] if o["op"] == "sweep")
@@ -455,7 +549,7 @@ def run(ctx):
             # could not be executed within the timing slack even after retries: not judged
             ctx.cov["histogram"]["skipped/slow"] = ctx.cov["histogram"].get("skipped/slow", 0) + 1
             continue
-        if r["timeout_unused_ns"] != TEN_MIN * NS or r["timeout_active_ns"] != SIX_H * NS:
+        if r["timeout_unused_ns"] != TEN_MIN or r["timeout_active_ns"] != SIX_H:
             ctx.fail("lifetime-constant", "the table is created with lifetimes unused=%d ns active=%d ns; the property says 10 min / 6 h"
                      % (r["timeout_unused_ns"], r["timeout_active_ns"]), {"case": case})
         oracle(ctx, case, r)
@@ -466,6 +560,8 @@ def run(ctx):
     for i in (0, n_fixed + 5, len(cases) - 1):
         if i < len(cases):
             ctx.sample({"ops": cases[i]["ops"][:12], "last_observation": res[i]["obs"][-1] if res[i]["obs"] else None})
+    if ctx.replay is None and fake_ok:
+        ctx.require_kinds(["boundary/sweep-at-limit-unused", "boundary/sweep-at-limit-used"])
     if ctx.replay is None:
         ctx.require_kinds(["corpus/expiring", "exhaustive/expiring", "exhaustive/sweep", "random/expiring",
                            "op/track", "op/tracknx", "op/validate", "op/validate_stale", "op/active", "op/advance", "op/sweep", "op/lookup", "op/count"])
